@@ -5,6 +5,7 @@ from fractions import Fraction as Fr
 import gen
 import impl
 import oracles
+import wire as _wire
 
 P1, P2, PR = gen.P1, gen.P2, gen.PR
 
@@ -87,7 +88,7 @@ def check_case(ctx, g, model=None):
         model.add("prune", game_payload(g),
                   expect={"outcome": r["outcome"], "nodes": r.get("nodes"), "probs": r.get("probs"),
                           "strats": r.get("strats")},
-                  inp=inp, suite="corr.prune")
+                  inp=inp, suite="corr.prune", cmp=_wire.staged(ctx, {"outcome", "nodes"}, ("probs", "reachstrat")))
 
 
 from wire import game_payload  # noqa: E402
